@@ -241,10 +241,16 @@ func (p *schedProxy) MarkAsDone(ctx context.Context, id string, werr error) erro
 	return err
 }
 
+var errWrappedDeadline = fmt.Errorf("work gave up: %w", context.DeadlineExceeded)
+
 func outcomeTok(err error) string {
 	switch {
 	case err == nil:
 		return "nil"
+	case err == errWrappedDeadline:
+		return "wdl"
+	case err == context.DeadlineExceeded:
+		return "dl"
 	case errors.Is(err, context.Canceled):
 		return "ctx"
 	}
@@ -257,6 +263,10 @@ func outcomeErr(tok string) error {
 		return nil
 	case tok == "ctx":
 		return context.Canceled
+	case tok == "dl": // the work function honoured its task deadline
+		return context.DeadlineExceeded
+	case tok == "wdl":
+		return errWrappedDeadline
 	}
 	s, _ := proto.UnStr(strings.TrimPrefix(tok, "err:"))
 	return errors.New(s)
@@ -631,6 +641,7 @@ func mustUnStr(s string) string { v, _ := proto.UnStr(s); return v }
 // ---------------------------------------------------------------------------------------------
 
 type schedGen struct {
+	ties   bool // tie-heavy profile: two times, two priorities, many priority-only updates
 	r      *rng.R
 	adds   int
 	now    time.Time
@@ -641,6 +652,27 @@ var schedTimes = []time.Duration{5 * time.Second, 10 * time.Second, 15 * time.Se
 
 func (g *schedGen) userOp() string {
 	r := g.r
+	if g.ties {
+		id := func() string {
+			if g.adds == 0 {
+				return "t1"
+			}
+			return "t" + strconv.Itoa(1+r.Intn(g.adds))
+		}
+		tt := func() time.Time { return T0.Add(rng.Pick(r, []time.Duration{5 * time.Second, 10 * time.Second})) }
+		switch w := r.Intn(10); {
+		case w < 4 && g.adds < 3:
+			g.adds++
+			p := def.TaskUpdateParam{WorkId: option.Some("w"), ScheduledAt: option.Some(tt()), Priority: option.Some(r.Intn(2))}
+			return fmt.Sprintf("add - t%d %s", g.adds, proto.Param(p))
+		case w < 8:
+			return fmt.Sprintf("upd - %s %s", id(), proto.Param(def.TaskUpdateParam{Priority: option.Some(r.Intn(2))}))
+		case w < 9:
+			return fmt.Sprintf("upd - %s %s", id(), proto.Param(def.TaskUpdateParam{ScheduledAt: option.Some(tt())}))
+		default:
+			return fmt.Sprintf("can - %s", id())
+		}
+	}
 	id := func() string {
 		if g.adds == 0 {
 			return "t1"
@@ -692,8 +724,8 @@ func (g *schedGen) injections() string {
 	return " " + strings.Join(items, " ")
 }
 
-func genSchedHistory(r *rng.R, length int, faults int, workers int) sim.History {
-	g := &schedGen{r: r, now: T0, faults: faults}
+func genSchedHistory(r *rng.R, length int, faults int, workers int, ties bool) sim.History {
+	g := &schedGen{r: r, now: T0, faults: faults, ties: ties}
 	h := sim.History{Header: fmt.Sprintf("new sched %d", workers)}
 	for k := 0; k < length; k++ {
 		switch w := r.Intn(100); {
@@ -701,13 +733,16 @@ func genSchedHistory(r *rng.R, length int, faults int, workers int) sim.History 
 			h.Ops = append(h.Ops, "u "+g.userOp())
 		case w < 36:
 			g.now = T0.Add(time.Duration(r.Intn(12)) * 5 * time.Second)
+			if g.ties {
+				g.now = T0.Add(time.Duration(r.Intn(3)) * 5 * time.Second)
+			}
 			h.Ops = append(h.Ops, "adv "+proto.Time(g.now))
 		case w < 76:
 			h.Ops = append(h.Ops, "step"+g.injections())
 		case w < 86:
 			h.Ops = append(h.Ops, "retry"+g.injections())
 		default:
-			h.Ops = append(h.Ops, "complete oldest "+rng.Pick(r, []string{"nil", "nil", "err:boom", "ctx", "err:work_id%20not%20found"}))
+			h.Ops = append(h.Ops, "complete oldest "+rng.Pick(r, []string{"nil", "nil", "err:boom", "ctx", "err:work_id%20not%20found", "dl", "wdl"}))
 		}
 	}
 	h.Ops = append(h.Ops, "quiesce")
@@ -719,6 +754,7 @@ func cmdSched(args []string) {
 	fs := flag.NewFlagSet("sched", flag.ExitOnError)
 	c.register(fs)
 	faults := fs.Int("faults", 0, "0 none, 1 sparse, 2 several")
+	ties := fs.Bool("ties", false, "tie-heavy profile (two times, two priorities, priority-only updates)")
 	workers := fs.Int("slots", 2, "dispatcher slots (0 = random 1..3)")
 	fs.Parse(args)
 	os.MkdirAll(c.scratch, 0o755)
@@ -739,7 +775,7 @@ func cmdSched(args []string) {
 			if ws == 0 {
 				ws = 1 + r.Intn(3)
 			}
-			h := genSchedHistory(r, c.length, *faults, ws)
+			h := genSchedHistory(r, c.length, *faults, ws, *ties)
 			return h, schedExec(h)
 		})
 	}
